@@ -134,6 +134,11 @@ def classify(F, body, l, seen):
                         errread = True
             # tuple-of-results matches etc. are handled through the aggregate (stmt) case
             if not errread:
+                # `if let Ok(x) = r { .. }; r` - the result is looked at and then handed on whole: the error is propagated
+                for u2 in real:
+                    if u2[0] == "stmt" and not u2[3]["p"] and u2[2]["rv"]["r"] == "use" and (u2[2]["d"]["l"] == 0 and not u2[2]["d"]["p"]):
+                        errread = True
+            if not errread:
                 # is the Err arm returning an error of its own? (e.g. `Err(_) => return Err(X)`)
                 return ("err-arm-ignores-error", "matched, but the Err payload is never read: the error is silently replaced or ignored")
             handled = True
